@@ -107,7 +107,13 @@ func (l *List[T]) IsSorted(lt cmp.LessThan[T]) bool {
 //
 // The operation will modify the input list, replacing it with an new
 // list operation.
-func (l *List[T]) SortMerge(lt cmp.LessThan[T]) { *l = *mergeSort(l, lt) }
+func (l *List[T]) SortMerge(lt cmp.LessThan[T]) {
+	// mergeSort moves the elements into a new list; move them back
+	// so that they belong to (and are counted by) this list.
+	if sorted := mergeSort(l, lt); sorted != l {
+		l.Extend(sorted)
+	}
+}
 
 // SortQuick sorts the list, by removing the elements, adding them
 // to a slice, and then using sort.SliceStable(). In many cases this
